@@ -525,6 +525,7 @@ func (r *runner) suiteHist() {
 	rng := r.ctx.Rng
 	K := int(heur.MaxHistory)
 	abs := func(x int) int { return max(x, -x) }
+	nontrivial := 0
 	sampleEvery := r.ctx.Pick(1, 211) // thorough: every 211th pair of the exhaustive sweep goes to the Lean model
 	for _, c := range histCells() {
 		// one step from every stored value h (|h| ≤ K; reached from 0 by Add(h)) with every int16 bonus
@@ -545,7 +546,11 @@ func (r *runner) suiteHist() {
 			cb := max(-K, min(K, bonus))
 			if abs(h+cb) > K {
 				r.res.Count("hist:"+c.name+":gravity-needed-for-bound", 1)
-				r.res.DistinctNontrivial++ // pairs are enumerated/sampled without repetition per counter type (see Rule)
+				if r.ctx.Thorough() {
+					nontrivial++ // the exhaustive sweep enumerates every pair exactly once per counter type
+				} else {
+					r.res.Nontrivial(fmt.Sprintf("%s %d %d", c.name, h, bonus))
+				}
 			}
 			if toModel || viol != "" {
 				r.check("C16", fmt.Sprintf("%s %d %d", c.name, h, bonus), fmt.Sprint(got), viol)
@@ -621,6 +626,7 @@ func (r *runner) suiteHist() {
 		}
 	}
 	r.flush()
+	r.res.DistinctNontrivial += nontrivial
 }
 
 func main() {
